@@ -435,9 +435,11 @@ ares_status_t ares_dns_name_write(ares_buf_t *buf, ares_llist_t **list,
 
   /* Store pointer for future jumps as long as its not an exact match for
    * a prior entry.  Names whose (escaped) text form is too long to be tracked
-   * are simply not offered as a compression target, they are still valid. */
+   * are simply not offered as a compression target, they are still valid.
+   * Neither are names written beyond what the 14-bit OFFSET field of a
+   * compression pointer (RFC 1035 Section 4.1.4) can address. */
   if (list != NULL && (off == NULL || off->name_len != orig_name_len) &&
-      name_len > 0 && orig_name_len <= 255) {
+      name_len > 0 && orig_name_len <= 255 && pos <= 0x3FFF) {
     status = ares_nameoffset_create(list, name /* not truncated copy! */, pos);
     if (status != ARES_SUCCESS) {
       goto done; /* LCOV_EXCL_LINE: OutOfMemory */
